@@ -40,7 +40,7 @@ type pipeItem struct {
 	IsErr  bool // an error reply is expected (bad line, unknown command)
 }
 
-func genPipeline(t *rapid.T, sc stackCase, maxLen int, now int64) []wire.Cmd {
+func genPipeline(t *rapid.T, sc stackCase, maxLen int, now int64) ([]wire.Cmd, []string) {
 	keys := genAlphabet(t)
 	opts := cmdGenOpts{Binary: sc.Binary, Keys: keys, TwoPorts: false}
 	n := rapid.IntRange(2, maxLen).Draw(t, "len")
@@ -68,7 +68,7 @@ func genPipeline(t *rapid.T, sc stackCase, maxLen int, now int64) []wire.Cmd {
 		}
 		cmds = append(cmds, c)
 	}
-	return cmds
+	return cmds, keys
 }
 
 // checkBinFrames validates the frames attributed (by opaque) to one request.
@@ -204,11 +204,33 @@ func TestC08(t *testing.T) {
 		}
 		cl := ses.client(port)
 		now := nowUnix()
-		cmds := genPipeline(t, sc, maxLen, now)
+		cmds, keys := genPipeline(t, sc, maxLen, now)
 		for i := range cmds {
 			cmds[i].Port = port
 		}
 		model := refmodel.New()
+		// state before the pipeline: each key absent, hot (in every tier) or cold
+		// (stored, then lost by L1 -- the same thing to a client)
+		var pre []string
+		if rapid.Bool().Draw(t, "prestate") {
+			setup := wire.NewClient(st.Dial(0), true)
+			for _, k := range keys {
+				state := rapid.SampledFrom([]string{"absent", "hot", "cold"}).Draw(t, "pre-"+k)
+				if state == "absent" {
+					continue
+				}
+				c := wire.Cmd{Kind: wire.Set, Key: k, Value: []byte("pre-" + k[:min(len(k), 8)]), Flags: 21}
+				if o, err := setup.Do(c); err != nil || o.Class != wire.OK {
+					undecided(t, rec, fmt.Sprintf("C08 %s: pre-state set failed: %v %s", sc, err, o))
+				}
+				model.Apply(c, now)
+				if state == "cold" && st.L2 != nil {
+					st.L1.Evict(k, k+"-meta", k+"-0", k+"-1")
+				}
+				pre = append(pre, k[:min(len(k), 8)]+"="+state)
+			}
+			setup.Close()
+		}
 		exps := make([]refmodel.Expect, len(cmds))
 		var burst []byte
 		errSeen, errThenMore, multiLocked := false, false, false
@@ -237,7 +259,7 @@ func TestC08(t *testing.T) {
 			burst = append(burst, "version\r\n"...)
 		}
 		fail := func(format string, args ...interface{}) {
-			t.Fatalf("C08 %s: %s\npipeline: %s", sc, fmt.Sprintf(format, args...), strings.Join(cmdsString(cmds), " | "))
+			t.Fatalf("C08 %s: %s\nstate before: %v\npipeline: %s", sc, fmt.Sprintf(format, args...), pre, strings.Join(cmdsString(cmds), " | "))
 		}
 		werr := make(chan error, 1)
 		go func() { _, err := cl.C.Write(burst); werr <- err }()
